@@ -69,6 +69,10 @@ type Obs struct {
 	U       int64 `json:"u_ms"`              // true observation time, Unix ms (legal messages)
 	Illegal uint  `json:"illegal,omitempty"` // != 0: an illegal raw timestamp is sent instead
 	MSM7    bool  `json:"msm7"`
+	// Foreign != 0: an MSM of a constellation the statement does not cover (SBAS, QZSS, NavIC; the message
+	// type is given here) with the raw timestamp Illegal.  Nothing is demanded of it - but it must not
+	// disturb the times of the four constellations' messages around it.
+	Foreign int `json:"foreign_msm_type,omitempty"`
 }
 
 type Case struct {
@@ -169,6 +173,9 @@ func CheckVia(c Case, o *stats.Obs, feed Feeder) error {
 		if ob.MSM7 {
 			typ += 3
 		}
+		if ob.Foreign != 0 {
+			typ = ob.Foreign
+		}
 		m := enc.MSM{Type: typ, StationID: uint(i & 4095), Timestamp: ts}
 		frames[i] = m.Frame()
 	}
@@ -226,7 +233,9 @@ func CheckVia(c Case, o *stats.Obs, feed Feeder) error {
 		fmt.Fprintf(&b, "handler start %s (%s); history:", start.UTC().Format("Mon 2006-01-02 15:04:05.999999999 UTC"), c.Zone)
 		for j := 0; j <= i; j++ {
 			ob := c.Msgs[j]
-			if ob.Illegal != 0 {
+			if ob.Foreign != 0 {
+				fmt.Fprintf(&b, "\n  #%d MSM of type %d (another constellation) with timestamp %d", j, ob.Foreign, ob.Illegal)
+			} else if ob.Illegal != 0 {
 				fmt.Fprintf(&b, "\n  #%d %s illegal timestamp %d", j, Names[ob.C], ob.Illegal)
 			} else {
 				fmt.Fprintf(&b, "\n  #%d %s observed %s (timestamp %d)", j, Names[ob.C], fmtMs(ob.U), tss[j])
@@ -243,6 +252,9 @@ func CheckVia(c Case, o *stats.Obs, feed Feeder) error {
 		if m.Timestamp != tss[i] {
 			o.Key = "timestamp-field"
 			return fmt.Errorf("message %d: Timestamp = %d, encoded %d; %s", i, m.Timestamp, tss[i], describe(i))
+		}
+		if ob.Foreign != 0 {
+			continue
 		}
 		if ob.Illegal != 0 {
 			if (!c.Stream && err == nil) || m.ErrorMessage == "" {
@@ -286,6 +298,10 @@ func CheckVia(c Case, o *stats.Obs, feed Feeder) error {
 	prevC := -1
 	illegal := 0
 	for _, ob := range c.Msgs {
+		if ob.Foreign != 0 {
+			o.Class("other-constellation-msm-in-between")
+			continue
+		}
 		if ob.Illegal != 0 {
 			illegal++
 			continue
@@ -490,6 +506,16 @@ func GenAt(t *rapid.T, anywhere bool, midnightUTC bool) Case {
 		}
 		c.Msgs = append(c.Msgs, seqs[cc][idx[cc]])
 		idx[cc]++
+	}
+	// MSMs of the constellations the statement does not name, anywhere in between
+	if rapid.IntRange(0, 3).Draw(t, "foreign") == 1 {
+		k := rapid.IntRange(1, 3).Draw(t, "nForeign")
+		for i := 0; i < k; i++ {
+			f := Obs{Foreign: rapid.SampledFrom([]int{1104, 1107, 1114, 1117, 1134, 1137}).Draw(t, "foreignType")}
+			f.Illegal = uint(rapid.SampledFrom([]int{1, 1000, 18000, 604799999, 604790000, 300000000, 1<<30 - 1}).Draw(t, "foreignTs"))
+			at := rapid.IntRange(0, len(c.Msgs)).Draw(t, "foreignAt")
+			c.Msgs = append(c.Msgs[:at], append([]Obs{f}, c.Msgs[at:]...)...)
+		}
 	}
 	if c.Stream && len(c.Msgs) > 1 && rapid.Bool().Draw(t, "splitStream") {
 		k := rapid.IntRange(1, 3).Draw(t, "nSplits")
